@@ -337,7 +337,7 @@ def real_dump(st):
 
 
 def battery(st, spec, kind='file', full=True, extra_oids=(), counter=None, nchanges_oids=None, min_tid=None,
-            iternext=True, undolog=True):
+            iternext=True, undolog=True, absent_equiv=False):
     """Compare every query with the model. Returns (n_queries, diffs[list of (name, real, model)])."""
     q = SpecQ(spec, kind, nchanges_oids)
     diffs = []
@@ -355,6 +355,10 @@ def battery(st, spec, kind='file', full=True, extra_oids=(), counter=None, nchan
     def chk(name, real, exp):
         nonlocal n
         n += 1
+        if absent_equiv and name[0] == 'loadBefore':
+            # layered storages: "no revision before tid" and "does not exist" both mean absent at that snapshot
+            real = ('absent',) if real in (('ok', None), ('POSKeyError',)) else real
+            exp = ('absent',) if exp in (('ok', None), ('POSKeyError',)) else exp
         if real != exp:
             diffs.append((name, short(real), short(exp)))
     for o in oids:
